@@ -49,6 +49,19 @@ class Curve:
         self.oid = oid
         self.encoded_oid = der.encode_oid(*oid)
 
+    def __eq__(self, other):
+        if isinstance(other, Curve):
+            return (
+                self.curve == other.curve and self.generator == other.generator
+            )
+        return NotImplemented
+
+    def __ne__(self, other):
+        return not self == other
+
+    def __hash__(self):
+        return hash((self.curve, self.generator.x(), self.generator.y()))
+
     def __repr__(self):
         return self.name
 
